@@ -1,9 +1,70 @@
+import json
+import os
+
 from checks import meshpool
+from vlib import core
+
+
+def generators(ctx, vh):
+    """Generator half of C02: TLC enumerates parameter tuples (GenShapes), the real generators run, TraceShape judges."""
+    d = ctx.scratch("genshapes")
+    cfg = "GenShapes.cfg" if ctx.tier == "quick" else "GenShapesBig.cfg"
+    r = core.run_tlc(d, "GenShapes", cfg, workers=4, timeout=600)
+    ctx.add_tlc(r)
+    cases = [v for v in r.values if isinstance(v, dict) and "gen" in v]
+    if len(cases) < 100:
+        raise core.Infra("GenShapes produced only %d parameter tuples" % len(cases))
+    cp = os.path.join(d, "cases.ndjson")
+    core.write_ndjson(cp, cases)
+    tp = os.path.join(d, "trace.ndjson")
+    core.run_vh(vh, ["gen-exec", "-in", cp, "-out", tp], timeout=900)
+    raw = open(tp).readlines()
+    res = core.validate_sharded(ctx, "genshapes", "TraceShape", "TraceShape.cfg", raw, nshards=4,
+                                is_boundary=lambda ln: True, timeout=900)
+    accepted = 0
+    for ln in raw:
+        if '"topo":"FAIL"' not in ln:
+            accepted += 1
+    for sh, rr in res:
+        for v in rr.values:
+            if isinstance(v, dict) and "bad" in v:
+                ln = json.loads(sh[v["l"] - 1])
+                ctx.violation("C02.GenWellFormed/gen%d" % ln["gen"],
+                              "generator %d with parameters %s returned an ill-formed mesh: %s" % (ln["gen"], ln["p"], ln["shape"]),
+                              {"family": "genshape", "case": {"gen": ln["gen"], "p": ln["p"]}})
+    ctx.traces += len(cases)
+    ctx.evaluations += len(raw)
+    ctx.extra["generator_parameter_tuples"] = len(cases)
+    ctx.extra["generator_tuples_accepted"] = accepted
+    ctx.sample({"generator_case": cases[len(cases) // 2]})
+    if accepted < len(cases) // 4:
+        raise core.Infra("most generator tuples were rejected (vacuous)")
 
 
 def run(ctx):
     meshpool.run_family(ctx, "C02")
+    generators(ctx, core.build_vh())
 
 
 def replay(ctx, path):
+    obj = json.load(open(path))["case"]
+    if obj.get("family") == "genshape":
+        vh = core.build_vh()
+        d = ctx.scratch("replay")
+        cp = os.path.join(d, "cases.ndjson")
+        core.write_ndjson(cp, [obj["case"]])
+        tp = os.path.join(d, "trace.ndjson")
+        core.run_vh(vh, ["gen-exec", "-in", cp, "-out", tp])
+        raw = open(tp).readlines()
+        res = core.validate_sharded(ctx, "replay", "TraceShape", "TraceShape.cfg", raw, nshards=1, is_boundary=lambda ln: True)
+        for sh, rr in res:
+            for v in rr.values:
+                if isinstance(v, dict) and "bad" in v:
+                    ln = json.loads(sh[v["l"] - 1])
+                    print("replay: ill-formed", ln["shape"])
+                    ctx.violation("C02.GenWellFormed/gen%d" % ln["gen"], "replayed", obj)
+        ctx.rule = "replay"
+        ctx.nontrivial = 2
+        ctx.sample({"replayed": path})
+        return
     meshpool.replay_family(ctx, "C02", path)
